@@ -240,11 +240,82 @@ def compare_case(src, ops, rseed, rec, case, base=None):
         real = real_fallbacks(ke1, pkg, rec)
         if real:
             rec.violation("silent_fallback", {**fx, "what": "datalist-key-not-found"}, {"ops": applied, "n": len(real), "keys": [list(x) for x in real[:4]]}, case=case)
+        if not d and "list-order" in groups:
+            edit_twin(src, out, rseed, rec, case, fx, applied)
     finally:
         if os.path.isdir(out):
             shutil.rmtree(out, ignore_errors=True)
         elif os.path.exists(out):
             os.remove(out)
+
+
+def edit_twin(src, out, rseed, rec, case, fx, applied):
+    """The two layouts are the same document, so the same edits make the same document of both: new strings, a new number format
+    and a new custom format given to two cells each (a value found again in a lookup list must resolve to its own key),
+    then every table is read again on both open documents."""
+    from numbers_parser import Document
+    from vf import snapshot as S
+    r4 = random.Random(rseed ^ 0xED17)
+    script = []
+    outcomes = []
+    snaps = []
+    for path in (src, out):
+        r5 = random.Random(r4.random() if not script else script[0])
+        if not script:
+            script.append(r5.random())
+            r5 = random.Random(script[0])
+        res = []
+        with warnings.catch_warnings():
+            warnings.simplefilter("ignore")
+            try:
+                doc = Document(path)
+                cf = None
+                for sh in doc.sheets:
+                    for t in sh.tables:
+                        if t.num_rows < 2 or t.num_cols < 2:
+                            continue
+                        cells = [(r5.randrange(t.num_rows), r5.randrange(t.num_cols)) for _ in range(4)]
+                        text = "twin " + str(r5.randrange(10 ** 6))
+                        dp = r5.randint(5, 9)
+                        for i, (r, c) in enumerate(cells):
+                            try:
+                                if i < 2:
+                                    t.write(r, c, text)
+                                else:
+                                    t.write(r, c, 1234.5678 + i)
+                                    if i == 2 or r5.random() < .5:
+                                        if cf is None:
+                                            cf = doc.add_custom_format(name="vf twin", type="number", num_decimals=3, show_thousands_separator=True)
+                                        t.set_cell_formatting(r, c, "custom", format=cf)
+                                    else:
+                                        t.set_cell_formatting(r, c, "number", decimal_places=dp)
+                                res.append("ok")
+                            except Exception as e:  # noqa: BLE001
+                                res.append(type(e).__name__)
+                        (r, c) = cells[3]
+                        try:
+                            if cf is None:
+                                cf = doc.add_custom_format(name="vf twin", type="number", num_decimals=3, show_thousands_separator=True)
+                            t.set_cell_formatting(r, c, "custom", format=cf)
+                            res.append("ok")
+                        except Exception as e:  # noqa: BLE001
+                            res.append(type(e).__name__)
+                snaps.append(S.document_snapshot(doc, content=True))
+            except Exception as e:  # noqa: BLE001
+                res.append("document:" + type(e).__name__)
+                snaps.append(None)
+        outcomes.append(res)
+    rec.count("edit_twins_compared")
+    if outcomes[0] != outcomes[1]:
+        i = next((k for k, (a, b) in enumerate(zip(outcomes[0], outcomes[1])) if a != b), -1)
+        rec.violation("layout_changes_what_an_edit_does", {**fx, "what": "outcome"}, {"ops": applied, "source": os.path.basename(src), "first": outcomes[0][i] if i >= 0 else len(outcomes[0]), "rewritten": outcomes[1][i] if i >= 0 else len(outcomes[1])}, case=case)
+        return
+    if snaps[0] is None or snaps[1] is None:
+        return
+    d = S.diff(snaps[0], snaps[1], limit=8)
+    if d:
+        rec.violation("layout_changes_what_an_edit_does", {**fx, "what": d[0][0].split(".")[-1]},
+                      {"ops": applied, "diffs": [(p_, repr(a)[:60], repr(b)[:60]) for p_, a, b in d[:5]], "source": os.path.basename(src)}, case=case)
 
 
 def run_fixture(spec, rec):
